@@ -37,6 +37,10 @@ pub struct MatchScenario {
 	pub lib_points: bool,
 	/// scheduling points inside the transport's send (before the bytes leave / before send returns)
 	pub tx_points: bool,
+	/// the transport's receive() is not cancellation safe (point `rx:mid`) and the client's ping timer runs
+	pub rx_split_ping_ms: Option<u64>,
+	/// calls made (and answered) before the scenario proper, so that its ids start here
+	pub warmup: usize,
 }
 
 fn mask_lib(l: &str) -> bool {
@@ -51,12 +55,12 @@ impl MatchScenario {
 		let mut env = Vec::new();
 		for (k, a) in self.answers.iter().enumerate() {
 			match a {
-				Ans::Ok => env.push(EnvEvent::Answer { msg: k, kind: AnswerKind::Ok }),
-				Ans::Err => env.push(EnvEvent::Answer { msg: k, kind: AnswerKind::Err }),
+				Ans::Ok => env.push(EnvEvent::Answer { msg: self.warmup + k, kind: AnswerKind::Ok }),
+				Ans::Err => env.push(EnvEvent::Answer { msg: self.warmup + k, kind: AnswerKind::Err }),
 				Ans::Omit => {}
 				Ans::Twice => {
-					env.push(EnvEvent::Answer { msg: k, kind: AnswerKind::Ok });
-					env.push(EnvEvent::Answer { msg: k, kind: AnswerKind::Ok });
+					env.push(EnvEvent::Answer { msg: self.warmup + k, kind: AnswerKind::Ok });
+					env.push(EnvEvent::Answer { msg: self.warmup + k, kind: AnswerKind::Ok });
 				}
 			}
 		}
@@ -80,15 +84,18 @@ impl Scenario for MatchScenario {
 	type State = CliState;
 	fn name(&self) -> String {
 		format!("cli_mem/match:{:?}:{:?}:{:?}:{:?}:{}{}", self.id_kind, self.ops, self.answers, self.extras, if self.lib_points { "lib" } else { "nolib" }, if self.tx_points { ":txpoints" } else { "" })
+			+ &self.rx_split_ping_ms.map_or(String::new(), |ms| format!(":rxsplit-ping{ms}ms"))
+			+ &(if self.warmup > 0 { format!(":warmup{}", self.warmup) } else { String::new() })
 	}
 	fn config(&self) -> Value {
-		json!({"id_kind": format!("{:?}", self.id_kind), "ops": format!("{:?}", self.ops), "answers": format!("{:?}", self.answers), "extras": format!("{:?}", self.extras)})
+		json!({"id_kind": format!("{:?}", self.id_kind), "ops": format!("{:?}", self.ops), "answers": format!("{:?}", self.answers), "extras": format!("{:?}", self.extras),
+			"receive_not_cancel_safe_and_ping_ms": self.rx_split_ping_ms, "warmup_calls": self.warmup})
 	}
 	fn mask(&self) -> fn(&str) -> bool {
 		if self.lib_points { mask_lib } else { mask_nolib }
 	}
 	fn setup(&self) -> CliState {
-		clim::setup(&CliScenarioCfg { id_kind: self.id_kind, ops: self.ops.clone(), env: self.env(), fail_send_at: None, tx_points: self.tx_points, buffer_cap: 4, late_after: 0 })
+		clim::setup(&CliScenarioCfg { rx_split: self.rx_split_ping_ms.is_some(), ping_ms: self.rx_split_ping_ms, warmup: self.warmup, id_kind: self.id_kind, ops: self.ops.clone(), env: self.env(), fail_send_at: None, tx_points: self.tx_points, buffer_cap: 4, late_after: 0 })
 	}
 	fn judge(&self, st: CliState, _trace: &[String], panics: &[String], status: Status) -> Verdict {
 		let mut v = Vec::new();
@@ -243,7 +250,7 @@ pub fn scenarios(thorough: bool) -> Vec<MatchScenario> {
 					continue;
 				}
 				for id_kind in [IdKind::Number, IdKind::String] {
-					out.push(MatchScenario { id_kind, ops: ops.clone(), answers: pat.clone(), extras: ex.clone(), lib_points: thorough, tx_points: false });
+					out.push(MatchScenario { id_kind, ops: ops.clone(), answers: pat.clone(), extras: ex.clone(), lib_points: thorough, tx_points: false, rx_split_ping_ms: None, warmup: 0 });
 				}
 			}
 		}
@@ -252,14 +259,36 @@ pub fn scenarios(thorough: bool) -> Vec<MatchScenario> {
 	for id_kind in [IdKind::Number, IdKind::String] {
 		for ops in [vec![FeOp::Call], vec![FeOp::Call, FeOp::Call], vec![FeOp::Call, FeOp::Subscribe], vec![FeOp::Batch(2), FeOp::Call]] {
 			let n = ops.len();
-			out.push(MatchScenario { id_kind, ops, answers: vec![Ans::Ok; n], extras: vec![], lib_points: thorough, tx_points: true });
+			out.push(MatchScenario { id_kind, ops, answers: vec![Ans::Ok; n], extras: vec![], lib_points: thorough, tx_points: true, rx_split_ping_ms: None, warmup: 0 });
 		}
 		for ops in [vec![FeOp::AbandonCall, FeOp::Call], vec![FeOp::AbandonCall, FeOp::Subscribe], vec![FeOp::AbandonCall, FeOp::AbandonCall, FeOp::Call]] {
 			let n = ops.len();
-			out.push(MatchScenario { id_kind, ops: ops.clone(), answers: vec![Ans::Ok; n], extras: vec![], lib_points: false, tx_points: false });
+			out.push(MatchScenario { id_kind, ops: ops.clone(), answers: vec![Ans::Ok; n], extras: vec![], lib_points: false, tx_points: false, rx_split_ping_ms: None, warmup: 0 });
 			let mut a = vec![Ans::Ok; n];
 			a[0] = Ans::Err;
-			out.push(MatchScenario { id_kind, ops, answers: a, extras: vec![], lib_points: false, tx_points: false });
+			out.push(MatchScenario { id_kind, ops, answers: a, extras: vec![], lib_points: false, tx_points: false, rx_split_ping_ms: None, warmup: 0 });
+		}
+	}
+	// (c) a transport whose receive() is not cancellation safe (as the WebSocket transport's is not) while the read task's
+	//     other branches (ping timer) fire: an arrived response must not be lost
+	for id_kind in [IdKind::Number, IdKind::String] {
+		for ops in [vec![FeOp::Call, FeOp::Call], vec![FeOp::Call, FeOp::Subscribe], vec![FeOp::Batch(2), FeOp::Call]] {
+			if !thorough && (ops.len() > 2 || matches!(id_kind, IdKind::String)) && ops[1] != FeOp::Call {
+				continue;
+			}
+			let n = ops.len();
+			for ms in if thorough { vec![1, 2, 3] } else { vec![2] } {
+				out.push(MatchScenario { id_kind, ops: ops.clone(), answers: vec![Ans::Ok; n], extras: vec![], lib_points: false, tx_points: false, rx_split_ping_ms: Some(ms), warmup: 0 });
+			}
+		}
+	}
+	// (d) ids that cross a power of ten (string ids compare lexicographically: "10" < "9")
+	for id_kind in [IdKind::Number, IdKind::String] {
+		for warmup in if thorough { vec![7, 8, 9, 10, 98, 99] } else { vec![8, 9] } {
+			for ops in [vec![FeOp::Batch(3)], vec![FeOp::Batch(2), FeOp::Call]] {
+				let n = ops.len();
+				out.push(MatchScenario { id_kind, ops, answers: vec![Ans::Ok; n], extras: vec![], lib_points: false, tx_points: false, rx_split_ping_ms: None, warmup });
+			}
 		}
 	}
 	out
